@@ -51,7 +51,7 @@ REQUIRED = ["roundtrips", "src_text", "src_bytes", "src_path", "offset_0", "offs
             "rounding_tie_values", "comments_compared", "audit_file_opens", "rewrites_same_object",
             "trees_with_int64_ids", "same_path_rewritten_then_read",
             "rejected_reads_before_roundtrip", "loaded_trees_saved_again", "size_sweep_cases", "src_path_other_spellings",
-            "eswc_roundtrips",
+            "eswc_roundtrips", "line_generators_interleaved",
             "tap_to_swc", "tap_parse_swc", "tap_reset_index_"]
 FLOOR = {"quick": 500, "thorough": 40000}
 SHARDS = {"quick": 8, "thorough": 16}
@@ -352,6 +352,34 @@ def _exec(ctx, case, tmp):
             if not np.array_equal(tree.ndata[k], v) or tree.ndata[k].dtype != v.dtype:
                 return ctx.violation("writer-mutates-tree", f"{what}: writing changed the tree's "
                                                             f"own column {k!r}", case)
+    if case.get("interleave"):
+        # the writer's line generator (swc_utils.to_swc) of this tree and of a second tree consumed
+        # in turns, and a complete write of a third tree in the middle of them: each text is what
+        # the same export gives when it runs alone
+        spec_b = dict(spec, x=spec["y"][::-1].copy(), y=spec["z"][::-1].copy(),
+                      type=spec["type"][::-1].copy())
+        tree_b = G.build(spec_b, with_tag=False, comments=["second"], source="")
+        small = Tree(2, pid=np.array([-1, 0], dtype=np.int32), x=np.array([1.5, 2.5], dtype=np.float32))
+        alone = ["".join(su.to_swc(t_.get_ndata, comments=["c"], id_offset=o_))
+                 for t_, o_ in ((tree, 1), (tree_b, 0))]
+        ga = su.to_swc(tree.get_ndata, comments=["c"], id_offset=1)
+        gb = su.to_swc(tree_b.get_ndata, comments=["c"], id_offset=0)
+        la, lb = [], []
+        for step in range(4 * n + 16):
+            for g_, acc in ((ga, la), (gb, lb)):
+                line = next(g_, None)
+                if line is not None:
+                    acc.append(line)
+            if step == n // 2:
+                small.to_swc()
+        ctx.count("line_generators_interleaved")
+        for nm, want_t, got_t in (("first", alone[0], "".join(la)), ("second", alone[1], "".join(lb))):
+            if got_t != want_t:
+                return ctx.violation("interleaved-writes-differ",
+                                     f"two exports consumed line by line in turns: the {nm} text "
+                                     f"differs from the same export run alone (first differing line "
+                                     f"{next((i for i, (a_, b_) in enumerate(zip(got_t.splitlines(), want_t.splitlines())) if a_ != b_), '?')})",
+                                     case)
     if case.get("eswc"):
         return _eswc_step(ctx, case, tmp, spec, tree, comments)
 
@@ -399,6 +427,7 @@ def run(ctx):
                     "rejected_read_first": bool(rng.random() < 0.3),
                     "resave": bool(rng.random() < 0.4),
                     "eswc": bool(rng.random() < 0.25),
+                    "interleave": bool(rng.random() < 0.2),
                     "writes": writes}
             ctx.case(case, nontrivial=rc["n"] >= 2 and rc["shape"] != "single",
                      klass=f"{case['vclass']}/{rc['shape']}")
